@@ -34,7 +34,7 @@ var stateMachineSpec = map[string]map[string]string{
 var successorFuncs = map[string]bool{"ProcessPass": true, "ProcessMiss": true, "ProcessHit": true, "ProcessFetch": true, "ProcessError": true, "ProcessDeliver": true, "ProcessLog": true, "restart": true}
 
 func runC06(c *core.Ctx) {
-	c.Explanation = "Structural necessary conditions of the request state machine, decided on SSA of interpreter: (sm.succ) for every lifecycle scope and every State constant, the successor reached when the scope's subroutine returns that action — computed by a path walk that binds the returned state to the constant and resolves phis and `state == K` tests along the path (so the NONE→default remapping is followed) — equals the Fastly table transcribed from the property statement; disallowed actions reach no successor; (sm.one) on every path of every non-terminal Process<Scope> to a return whose error may be nil, exactly one successor is called (count dataflow over {0,1,2+}); one named exception (purge requests stop after vcl_recv); together with the acyclic successor graph this puts vcl_log last and exactly once on every successful request; (sm.restart) the re-entry restart→ProcessRecv is dominated by a comparison of ctx.Restarts with limitations.MaxVarnishRestarts, whose value is 3; (sm.cache) the hit/miss branch is selected by the nil-ness of cache.Get(request hash), sets ctx.State HIT/MISS and process.Cached, ProcessDeliver copies ctx.State into X-Cache, the cross-request stores (cache, rateCounters, penaltyBoxes) are assigned only in New, and the expiry of a stored object is rewritten (CacheItem.Update) only under a dominating test that the new TTL is positive; (sm.report) every field of the process report is read by Finalize and the reported `cached` comes from Process.Cached."
+	c.Explanation = "Structural necessary conditions of the request state machine, decided on SSA of interpreter: (sm.succ) for every lifecycle scope and every State constant, the successor reached when the scope's subroutine returns that action — computed by a path walk that binds the returned state to the constant and resolves phis and `state == K` tests along the path (so the NONE→default remapping is followed) — equals the Fastly table transcribed from the property statement; disallowed actions reach no successor; (sm.one) on every path of every non-terminal Process<Scope> to a return whose error may be nil, exactly one successor is called (count dataflow over {0,1,2+}); one named exception (purge requests stop after vcl_recv); together with the acyclic successor graph this puts vcl_log last and exactly once on every successful request; (sm.restart) the re-entry restart→ProcessRecv is dominated by a comparison of ctx.Restarts with limitations.MaxVarnishRestarts, whose value is 3; (sm.cache) the hit/miss branch is selected by the nil-ness of cache.Get(request hash), sets ctx.State HIT/MISS and process.Cached, ProcessDeliver copies ctx.State into X-Cache, the cross-request stores (cache, rateCounters, penaltyBoxes) are assigned only in New, and the expiry of a stored object is rewritten (CacheItem.Update) only under a dominating test that the new TTL is positive; (sm.report) every field of the process report is read by Finalize and the reported `cached` comes from Process.Cached. (sm.hashseed) ctx.RequestHash is replaced on every pass before vcl_hash runs."
 	c.NotCovered = []string{"cache behaviour over histories (TTL arithmetic, expiry)", "rate counter and penalty box values", "which backend is chosen"}
 	prog := c.Prog
 	ip := prog.Pkg("interpreter")
